@@ -146,7 +146,7 @@ def whole_carts(ctx, rnd):
         lpat = (rnd.randrange(256), rnd.randrange(256)) if k % 2 else None
         code = cartio.LUA_SAMPLES[k % len(cartio.LUA_SAMPLES)]
         try:
-            rec, info = cartio.p8_trace(pat, ov, lpat, {5: 255} if lpat else {}, code, 8 + (k % 30), 'C16')
+            rec, info = cartio.p8_trace(pat, ov, lpat, {5: 255} if lpat else {}, code, (0, 255, 1, 41)[k] if k < 4 else 8 + (k % 30), 'C16')
         except Exception as e:  # noqa
             ctx.violation('p8-write-raises/%s' % type(e).__name__, 'writing a cart as .p8 raised %s' % e, {'kind': 'cart', 'pat': pat})
             continue
@@ -198,7 +198,8 @@ def whole_carts(ctx, rnd):
         ov = cartio.sparse_overrides(rnd, 60)
         mem = cartio.memory(pat, ov)
         code = b'print("hello hello hello hello")\nprint("hello hello hello hello")\n' * 3
-        g = cartio.make_game(mem, code, None, 8 + k)
+        ver = (0, 255, 33)[k] if k < 3 else 8 + k      # (the version byte: also 0 and the largest value)
+        g = cartio.make_game(mem, code, None, ver)
         buf = io.BytesIO()
         try:
             p8png.P8PNGFormatter.to_file(g, buf)
@@ -206,7 +207,7 @@ def whole_carts(ctx, rnd):
         except Exception as e:  # noqa
             ctx.violation('png-write-raises/%s' % type(e).__name__, 'writing / decoding a .p8.png raised %s' % str(e)[:80], {'kind': 'png', 'pat': list(pat)})
             continue
-        ptraces.append({'mem': list(mem), 'area': [], 'code': [], 'version': 8 + k, 'pixels': px, 'focus': 'C16', 'outcome': 'ok', 'rawLen': 0, 'compLen': 0,
+        ptraces.append({'mem': list(mem), 'area': [], 'code': [], 'version': ver, 'pixels': px, 'focus': 'C16', 'outcome': 'ok', 'rawLen': 0, 'compLen': 0,
                         'rb': {'checked': False, 'diff': [], 'code': [], 'version': 0}})
         pmeta.append('png%d' % k)
     if ptraces:
